@@ -67,7 +67,8 @@ class Aggregate:
 
 def write(agg):
     prop = agg.prop
-    os.makedirs("/verif/evidence", exist_ok=True)
+    evdir = os.environ.get("VERIF_EVIDENCE_DIR") or "/verif/evidence"
+    os.makedirs(evdir, exist_ok=True)
     stats = agg.stats
     doc = {
         "property_id": prop.ID,
@@ -104,7 +105,7 @@ def write(agg):
                                    "operations executed, physical lines and bytes delivered",
         },
     }
-    path = os.path.join("/verif/evidence", "%s.json" % prop.ID)
+    path = os.path.join(evdir, "%s.json" % prop.ID)
     tmp = path + ".tmp"
     with open(tmp, "w") as fobj:
         json.dump(doc, fobj, indent=1, sort_keys=True)
